@@ -432,6 +432,53 @@ def random_machines(res, spec, n, wd):
                 res.hashes.add(h(["rand", idx, engine]))
 
 
+def budget_after_aborted_macrosteps(res, engine, N, k, aborts):
+    """The bound never throttles events sent from outside - also not after macrosteps that raised a
+    few events (fewer than the bound) and were then ABORTED by an error: what those spent must not
+    count against later, unrelated drains."""
+    st = {"t": 0, "x": 0}
+    raises = [{"type": "xstate.raise", "params": {"event": "X"}} for _ in range(k)]
+    cfg = {"id": "m", "initial": "s", "maxIterations": N, "states": {"s": {"on": {
+        "BAD": {"actions": raises + ["not_implemented_anywhere"]},
+        "X": {"actions": ["x"]}, "T": {"actions": ["t"]}}}}}
+    machine = create_machine(cfg, logic=MachineLogic(actions={
+        "x": lambda i, c, e, a: st.__setitem__("x", st["x"] + 1),
+        "t": lambda i, c, e, a: st.__setitem__("t", st["t"] + 1)}))
+    nT = 2 * N + 3
+    with LogCapture(logging.ERROR):
+        if engine == "sync":
+            it = SyncInterpreter(machine).start()
+            for _ in range(aborts):
+                try:
+                    it.send("BAD")
+                except Exception:  # noqa: BLE001
+                    pass
+            for _ in range(nT):
+                it.send("T")
+            it.stop()
+        else:
+            async def body():
+                it = Interpreter(machine)
+                await it.start()
+                for _ in range(aborts):
+                    await it.send("BAD")
+                    await drain(it, max_yields=2000)
+                for _ in range(nT):
+                    await it.send("T")
+                await drain(it, max_yields=5000)
+                await it.stop()
+            run_virtual(body)
+    res.evaluations += 1
+    res.count("budget-after-aborts." + engine)
+    res.hashes.add(h(["budget-abort", engine, N, k, aborts]))
+    if st["t"] != nT:
+        res.violation("C13:external-events-throttled-after-aborted-macrosteps/%s" % engine,
+                      "%d external events sent after %d aborted macrosteps (each raised %d events, "
+                      "maxIterations %d): %d processed" % (nT, aborts, k, N, st["t"]),
+                      {"engine": engine, "maxIterations": N, "raised_per_abort": k, "aborts": aborts,
+                       "config": cfg})
+
+
 def run_chunk(spec):
     observe.quiet_logs()
     res = Result()
@@ -476,6 +523,13 @@ def run_chunk(spec):
             continue
         wd.arm("burst=%r" % (b,))
         burst(res, *b)
+    kk = 0
+    for engine in ("sync", "async"):
+        for N, k, aborts in ((5, 3, 2), (5, 4, 3), (8, 3, 4), (12, 5, 6)):
+            if kk % NCHUNKS == ci:
+                wd.arm("budget after aborts %s" % engine)
+                budget_after_aborted_macrosteps(res, engine, N, k, aborts)
+            kk += 1
     if not only:
         random_machines(res, spec, 12 if tier == "quick" else 1500, wd)
     wd.disarm()
@@ -489,7 +543,8 @@ def quota(counters, tier):
             if counters.get("runs.%s.%s" % (fam, eng), 0) == 0:
                 out.append("family-never-run:%s.%s" % (fam, eng))
     for k in ("finite-chains", "infinite-chains", "bursts", "async-invoke-chain.starvation-only",
-              "random.runs.sync", "random.runs.async", "random.long-chains"):
+              "random.runs.sync", "random.runs.async", "random.long-chains", "budget-after-aborts.sync",
+              "budget-after-aborts.async"):
         if counters.get(k, 0) == 0:
             out.append("monitor-never-reached:" + k)
     return out
